@@ -322,6 +322,30 @@ def run_controlled(ctx, props, quick=120, thorough=4000):
                                   'value': rng.choice([0, -1, gen.dy(rng, -1, 1, 3)])}]
                     spec['rules'] = rules
         specs.append(spec)
+    # a current-limited start whose target is passed during the first simulation; reset; the same rule objects again
+    for _ in range(ctx.budget(10, 150)):
+        spec = gen.gen_spec(rng, random_units=rng.random() < 0.7, sl_bias=0.0, currents=True, max_stages=2)
+        if sif('Current', spec['motor']['i0']) <= 0:
+            continue
+        dt = 2.0 ** -rng.randint(3, 6)
+        total = rng.randint(8, 14)
+        spec['init'] = {'pos': [0.0, spec['init']['pos'][1]], 'speed': [0.0, spec['init']['speed'][1]]}
+        spec['load']['coef'] = [min(abs(spec['load']['coef'][0]), 0.01), 0.0, 0.0, 0.0, 0.0]
+        op, _, _ = gen.run_op(rng, dt_si=dt, steps=(total, total), unit='sec')
+        probe, _ = sim.simulate(dict(spec, rules=None, ops=[op]))
+        if probe['build_error'] or probe['error'] or not probe.get('els'):
+            continue
+        enc = rng.randrange(len(probe['els']))
+        ps = probe['els'][enc]['angular position']
+        tgt = ps[max(1, len(ps) // 5)]
+        if not tgt > 0:
+            continue
+        i0, imax = sif('Current', spec['motor']['i0']), sif('Current', spec['motor']['imax'])
+        spec['rules'] = [{'type': 'limit', 'enc': enc, 'tach': 0, 'target': gen.in_unit(rng, 'AngularPosition', tgt, True),
+                          'ilim': gen.in_unit(rng, 'Current', rng.uniform(i0 * 1.2 + 0.01, imax * 0.9), True)}]
+        op2, _, _ = gen.run_op(rng, dt_si=dt, steps=(total, total), unit='sec')
+        spec['ops'] = [op, {'op': 'reset'}, {'op': 'init', 'pos': spec['init']['pos'], 'speed': spec['init']['speed']}, op2]
+        specs.append(spec)
     # the efficiency of a mating declared again between two simulations that re-use the same rule objects
     from harness import sim_props as _sp
     for _ in range(ctx.budget(12, 200)):
